@@ -110,6 +110,7 @@ class Interp:
         self.cur = "?"
         self.symctr = 0
         self.declared = set()
+        self.field_ranges = {}         # (field name,) or ("as:Variant", index) -> (lo, hi): declared, checked at writes
         self.cur_pos = None            # (fn name, block, statement index) being executed
         self.casts = {}                # narrowing integer casts: pos -> {lossless, seen, from, to}
 
@@ -141,6 +142,16 @@ class Interp:
         lo, hi = TYPE_RANGE.get(ty, (None, None))
         return ("int", Lin.sym(self.newsym(st, hint, lo, hi)))
 
+    def field_range(self, key):
+        """declared range of the field / enum payload slot a key ends in (checked at every write)"""
+        path = key[2]
+        if not path or not self.field_ranges:
+            return None
+        r = self.field_ranges.get((path[-1],))
+        if r is None and len(path) >= 2:
+            r = self.field_ranges.get((path[-2], path[-1]))
+        return r
+
     def default(self, st, key, ty):
         """value of a never-written key of type ty (entry value)"""
         if ty is None:
@@ -149,6 +160,9 @@ class Interp:
         if is_int_ty(t):
             s = "in:%s" % (key_str(key),)
             lo, hi = TYPE_RANGE[t]
+            fr = self.field_range(key)
+            if fr is not None:
+                lo, hi = max(lo, fr[0]), min(hi, fr[1])
             st.store.declare(s, lo, hi)
             return ("int", Lin.sym(s))
         if t == "bool":
@@ -201,6 +215,10 @@ class Interp:
             if ty is None:
                 return TOP
             v = self.default_noentry(st, ty)
+            fr = self.field_range(key)
+            if fr is not None and v[0] == "int":
+                st.store.add(Lin.const(fr[0]).sub(v[1]))
+                st.store.add(v[1].addc(-fr[1]))
             if v is not TOP:
                 st.env[key] = v
             return v
@@ -647,6 +665,9 @@ class Interp:
             if s.ok:
                 s.fail_detail = "%s [context: %s]" % (failed, " > ".join(self.stack[-3:]))
             s.ok = False
+            c = " > ".join(self.stack[-4:])
+            if c not in s.ctxs and len(s.ctxs) < 8:
+                s.ctxs.append(c)
         elif s.proof is None:
             s.proof = "; ".join("%s <= 0" % (l,) for l in lins)[:200]
         # continue under the assumption that the check passed
